@@ -24,7 +24,11 @@ Inductive c05_case :=
     (* `pre`: bytes already in the output (a complete prefix) before the stream is encoded *)
 | Stream (cp : caps) (pre : list N) (cs : list cmd) (oracle : list (rgba * N)) (impl : option (list N))
   (* a renderer session: C05 composed with C01 (Corr/C05bCorr.v) *)
-| Session (x : C05bCorr.session).
+| Session (x : C05bCorr.session)
+  (* ONE encoder object: command `x` is encoded into a writer that accepts `k` bytes and then fails
+     (observed: the bytes that got through, Ok or Err), then the commands `ys` into a healthy writer *)
+| FailWrite (cp : caps) (x : cmd) (k : N) (ys : list cmd) (oracle : list (rgba * N))
+            (failed : list N) (ok : bool) (follow : option (list N)).
 
 Definition oracle_ok (d : depth) (l : list (rgba * N)) : bool :=
   match d with
@@ -74,6 +78,33 @@ Definition c05_check (k : c05_case) : bool * bool :=
             && vt_complete (pre ++ ib)
         end )
   | Session x => C05bCorr.session_check x
+  | FailWrite cp x k ys oracle failed ok follow =>
+      let pal := lookup oracle in
+      ( match encode_stw pal pal cp enc_new x (Some (N.to_nat k)) with
+        | Ok (e, okm, s', _) =>
+            nlist_eqb e failed && Bool.eqb okm ok
+            && match encode_stream_st pal pal cp s' ys, follow with
+               | Ok (bs, _), Some fb => nlist_eqb bs fb
+               | _, _ => false
+               end
+        | _ => false
+        end
+      , (* specification side: what got through of the failed command is a prefix of (an encoding that
+           means) the command, exactly k bytes of it if the writer failed; and every LATER command still
+           means exactly what was commanded -- nothing of the failed one leaks into it, an empty
+           modification emits nothing *)
+        cmd_ok x && negb (is_raw x) && forallb cmd_ok ys && forallb (fun c => negb (is_raw c)) ys
+        && oracle_ok (cp_depth cp) oracle
+        && match encode pal pal cp x with
+           | Ok full =>
+               nlist_eqb failed (firstn (length failed) full)
+               && (if ok then nlist_eqb failed full else (N.of_nat (length failed) =? k) && (k <? N.of_nat (length full)))
+           | _ => false
+           end
+        && match follow with
+           | Some fb => ops_eqb (vt_ops fb) (flat_map (denote pal pal cp) ys) && vt_complete fb
+           | None => false
+           end )
   end.
 
 Definition c05_report := report c05_check.
